@@ -264,6 +264,9 @@ func (r *srState) crashPoint(events [][]string, n int, ids, topics []string) (vi
 		return "", nil, err
 	}
 	r2.b, r2.hook = b2, h2
+	for k, v := range r.b.aclDeny { // the restarted broker has the same authorisation rules
+		b2.aclDeny[k] = v
+	}
 	view = weakIFL(r.backend, brokerView(b2.s))
 	st2 := &state{m: map[string]any{"bk": b2}}
 	for j, id := range ids {
